@@ -37,7 +37,7 @@ def budget(tier):
 
 @st.composite
 def case(draw):
-    desc = draw(bm.description())
+    desc = draw(bm.description(allow_dirs=True))
     ops = []
     n = draw(st.integers(3, 10))
     cur = copy.deepcopy(desc)
@@ -132,7 +132,10 @@ def desc_edit(draw, cur, sources, extra_id):
                                           "salt": "x"}, "target": tgt}
     if kind == "produce-source" and sources:
         consumed = [s for s in sources if any(s in c.get("inputs", []) for c in cur["commands"])
-                    and not any(s in c["outputs"] for c in cur["commands"]) and s not in extra_id[1]]
+                    and not any(s in c["outputs"] for c in cur["commands"]) and s not in extra_id[1]
+                    # nothing is ever produced beneath the directory-tree input sd/ (docs/buildsystem.rst: the
+                    # graph must then order the producer before the tree node, which the evaluator does not model)
+                    and not s.startswith("sd/")]
         if consumed:
             extra_id[0] += 1
             s = draw(st.sampled_from(consumed))
